@@ -10,7 +10,7 @@ PROPS_FILE = "props/C35.v"
 IMPL = "C35_impl.py"
 COQ_HEADER = ("From Coq Require Import ZArith Bool QArith Qcanon.\n"
               "From FV Require Import base.Scalar base.GridBase base.Util model.Dispersion model.DispersionCheck.")
-SHARD = 8
+SHARD = 3
 RULE = ("random pole sets (Lorentz / Drude / CCPR / critical-point; scalar, per-axis incl. inactive axes, oriented Lorentz/Drude), "
         "omega_0*dt in (0.01, 1.9) mostly and >= 2 in ~12% (rejection), gamma = 0 or up to omega_0, 3 frequencies per case incl. "
         "omega*dt in {0.02, 0.01}; per case: coefficients vs model coeffs, chi from coefficients vs model chi_total, declared "
@@ -59,7 +59,9 @@ def gen_cases(ctx):
     cases = []
     for i in range(ctx.pick(24, 400)):
         w0max = rng.uniform(1e14, 5e15)
-        x = rng.uniform(0.01, 1.9) if rng.random() > 0.12 else rng.uniform(2.0, 3.0)
+        mode = i % 8
+        # mode 6: omega_0*dt just above 2 on a forced pole (must be rejected); mode 7: just below 2 (must be accepted)
+        x = rng.uniform(2.0, 2.45) if mode == 6 else rng.uniform(1.9, 1.999) if mode == 7 else rng.uniform(0.01, 1.9)
         dt = x / w0max
         oriented = i % 4 == 3
         n = rng.randint(1, 3)
@@ -74,6 +76,9 @@ def gen_cases(ctx):
                 poles.append(p)
             else:
                 poles.append(gen_pole(rng, w0max))
+        if mode in (6, 7):   # one scalar pole resonating exactly at w0max
+            poles[0] = rng.choice([{"kind": "lorentz", "w0": H(w0max), "g": H(rng.choice([0.0, 0.1 * w0max])), "de": H(rng.uniform(0.1, 5.0))},
+                                   {"kind": "cp", "amp": H(1.5), "phase": H(0.3), "om": H(w0max * 0.999), "gm": H(0.04 * w0max)}])
         omegas = [H(0.02 / dt), H(0.01 / dt), H(rng.uniform(0.05, 1.5) * w0max)]
         cases.append({"poles": poles, "dt": H(dt), "omegas": omegas, "extra_pad": rng.randint(0, 2), "x": x})
     return cases
@@ -118,7 +123,7 @@ def coq_expr(case, out):
             for ax in range(3):
                 parts.append(f"c4_close tol12 (d_coeffs {mkp(P[p], ax)} {dt}) {tup(c, p, ax)}")
         for wi, w in enumerate(case["omegas"]):
-            for ax in range(3):
+            for ax in (range(3) if wi == 2 else [wi] if wi == 0 else []):
                 zi = cpx(out["axis"]["chi"][wi], ax); zm = cpx(out["axis"]["model"][wi], ax)
                 sc = core.qlit(max(abs(zi), abs(zm), 1e-300))
                 parts.append(f"cclose tol8 {sc} (d_chi {lst([tup(c, p, ax) for p in range(n)])} {qh(w)} {dt}) {cq(zi)}")
@@ -224,9 +229,9 @@ def predicate(case, out):
                 for row in pd["c"][k][npoles:]:
                     if any(F(v) != 0.0 for v in row):
                         return (key, f"padded pole slot of material '{name}' is not zero")
-            for wi in range(len(case["omegas"])):
+            for wi in [2]:
                 for e in range(9):
-                    z = cpx(pd["chi"][wi], e)
+                    z = cpx(pd["chi"][0], e)
                     if name == "air" and z != 0:
                         return (key, "non-dispersive material has non-zero susceptibility")
                     if name == "full" and abs(z - cpx(out["tensor"]["chi"][wi], e)) > 1e-12 * (abs(z) + 1e-300):
